@@ -37,7 +37,6 @@ def showTV : TV → String
 def showExc : Exc → String
   | .valueError => "ValueError"
   | .timeoutStateError => "TimeoutStateError"
-  | .typeError => "TypeError"
   | .readTimeoutError => "ReadTimeoutError"
   | .badHandle => "bad-handle"
 
